@@ -83,7 +83,44 @@ def ids(xs):
     return sorted(id(x) for x in xs)
 
 
+OLD_VALUES = []
+
+
+def rename_history(rng, x):
+    """give x a past: a former (mixed-case) identifier and a former name that were later replaced; exact queries for
+    the former values must find nothing (stale index entries would answer them)."""
+    if "EDIF.identifier" in x and rng.random() < 0.4:
+        final = x["EDIF.identifier"]
+        old = "Old%s_%d" % (final[:6].title(), rng.randrange(1000))
+        try:
+            x["EDIF.identifier"] = old
+            x["EDIF.identifier"] = final
+            OLD_VALUES.append(old)
+        except ValueError:
+            pass
+    if x.name and rng.random() < 0.2:
+        final = x.name
+        old = "was_%s_%d" % (final[:6], rng.randrange(1000))
+        try:
+            x.name = old
+            x.name = final
+            OLD_VALUES.append(old)
+        except ValueError:
+            pass
+
+
 def decorate(rng, n, policy):
+    del OLD_VALUES[:]
+    _decorate(rng, n, policy)
+    for l in n.libraries:
+        rename_history(rng, l)
+        for d in l.definitions:
+            rename_history(rng, d)
+            for x in list(d.ports) + list(d.cables) + list(d.children):
+                rename_history(rng, x)
+
+
+def _decorate(rng, n, policy):
     colors = ["red", "blue", "Red"]
     for l in n.libraries:
         l["color"] = rng.choice(colors)
@@ -170,6 +207,9 @@ class Checker:
                (re.escape(a), True, True, "regex"),
                (re.escape(a).swapcase() if a.isalnum() else re.escape(a), False, True, "regex-nocase"),
                (re.escape(a[:1]) + ".*", True, True, "regex-prefix")]
+        if OLD_VALUES and not hier and key in (".NAME", "EDIF.identifier"):
+            o = self.r.choice(OLD_VALUES)
+            out += [(o, True, False, "exact-former-value"), (o.lower(), True, False, "exact-former-value-lower")]
         if "[" not in a:
             out += [(a.swapcase(), False, False, "nocase-exact"), (a[:1] + "*", True, False, "glob-prefix"), (a[:1].swapcase() + "*", False, False, "glob-prefix-nocase"),
                     (a[:-1] + "?", True, False, "glob-q"), ("*" + b[-1:], False, False, "glob-suffix-nocase")]
@@ -203,13 +243,13 @@ class Checker:
             pats = []
         if k_eff not in (None, ".NAME", "EDIF.identifier") and common.fenced(me, "exact-user-key-returns-one-per-scope"):
             ctx.count("fenced:exact-user-key")
-            pats = [x for x in pats if x[3] not in ("exact", "exact-caseswapped")]
+            pats = [x for x in pats if not x[3].startswith("exact")]
         results = {}
         for p, ic, ir, kind in pats:
             may = set()
-            if k_eff == "EDIF.identifier" and kind == "exact" and self.policy == "EDIF":
+            if k_eff == "EDIF.identifier" and kind in ("exact", "exact-former-value", "exact-former-value-lower") and self.policy == "EDIF":
                 may = set(id(x) for x in U if isinstance(self.value(x, k_eff), str) and self.value(x, k_eff).lower() == p.lower())
-            if k_eff == "EDIF.identifier" and kind in ("exact", "exact-caseswapped") and self.policy != "EDIF" and \
+            if k_eff == "EDIF.identifier" and kind in ("exact", "exact-caseswapped", "exact-former-value", "exact-former-value-lower") and self.policy != "EDIF" and \
                     common.fenced(sys.modules[__name__], "identifier-lookup-under-default-policy"):
                 ctx.count("fenced:exact-identifier-under-default")
                 continue
